@@ -62,6 +62,21 @@ Fixpoint fill (n : nat) (b : buffer) (off : Z) (v : N) : buffer :=
   | S n' => fill n' (bset b off v) (off + 1) v
   end.
 
+(* bts.Grow(newSize), container/bytes/inmem.go: nb := make([]byte, newSize);
+   copy(nb, *ib) - the old bytes, zeros behind them (files/mmfile.go: the file is
+   extended with zeros and mapped again).  A cell of the sparse map outside
+   [0, old size) is not a byte of the old storage: it reads 0 afterwards. *)
+Definition unkey (k : positive) : Z :=
+  match k with
+  | xH => 0
+  | xO p => Zpos p
+  | xI p => Zneg p
+  end.
+
+Definition grow_buf (b : buffer) (n : Z) : buffer :=
+  mkBuf n (PositiveMap.mapi
+             (fun k v => if (0 <=? unkey k) && (unkey k <? bsize b) then v else 0%N) (cells b)).
+
 (** * Errors and results *)
 
 Inductive err := EInvalid | ENotExist | EExhausted | EClosed | EOther.
@@ -303,7 +318,8 @@ Inductive op :=
 | OWrite (idx : Z) (v : N)   (* fill Block(idx) with the byte v *)
 | OPoke (idx k : Z) (v : N)  (* Block(idx)[k] = v *)
 | OReopen                    (* NewBlocks on the same bytes, continue with the new allocator *)
-| OAvail | OCount | OSegments.
+| OAvail | OCount | OSegments
+| OGrow (newSize : Z).       (* bts.Grow(newSize) on the storage under the live allocator *)
 
 Inductive out :=
 | OutOk
@@ -348,6 +364,14 @@ Definition step (page : Z) (fit : bool) (b : blocks) (o : op) : blocks * out :=
   | OAvail => (b, OutN (available b))
   | OCount => (b, OutN (blocks_count b))
   | OSegments => (b, OutN (segments b))
+  | OGrow n =>
+      (* inmem.go: newSize < Size() is a plain error; otherwise a new array with
+         the old bytes.  The Blocks object is untouched: blkSize, blksInSegm,
+         segments, freeIdx, available stay what they are; the room shows after
+         the next NewBlocks on the storage (OReopen) *)
+      if n <? bsize (bts b) then (b, OutErr EOther)
+      else (mkBlocks (blkSize b) (blksInSegm b) (segments b) (freeIdx b) (available b)
+              (grow_buf (bts b) n), OutOk)
   end.
 
 Fixpoint run (page : Z) (fit : bool) (b : blocks) (ops : list op) : list out * blocks :=
@@ -376,6 +400,21 @@ Definition is_alloc_bytes (bs : Z) (buf : buffer) (idx : Z) : bool :=
 Definition alloc_of_bytes (bs segs : Z) (buf : buffer) : list Z :=
   filter (is_alloc_bytes bs buf) (zrange 0 (Z.to_nat (segs * (8 * bs)))).
 
+(* What a later NewBlocks on the same storage would add (the storage may be
+   larger than the segments the live allocator was opened with: non-fit, or
+   after Grow): the indices behind the live ones whose header byte lies inside
+   the storage and has the bit set, ascending.  Only whole segments become
+   visible at a reopen; the marks of a partial tail segment wait for more room. *)
+Definition is_hidden (bs : Z) (buf : buffer) (idx : Z) : bool :=
+  let bis := 8 * bs in
+  ((idx / bis) * ((bis + 1) * bs) + (idx mod bis) / 8 <? bsize buf) && is_alloc_bytes bs buf idx.
+
+Definition hidden_of_bytes (bs segs : Z) (buf : buffer) : list Z :=
+  filter (is_hidden bs buf)
+    (zrange (segs * (8 * bs)) (Z.to_nat ((bsize buf / ((8 * bs + 1) * bs) + 1 - segs) * (8 * bs)))).
+
 Definition is_alloc (b : blocks) (idx : Z) : bool := is_alloc_bytes (blkSize b) (bts b) idx.
 
 Definition alloc_list (b : blocks) : list Z := alloc_of_bytes (blkSize b) (segments b) (bts b).
+
+Definition hidden_list (b : blocks) : list Z := hidden_of_bytes (blkSize b) (segments b) (bts b).
